@@ -22,6 +22,15 @@ chk("C01", "fbbsim", "exploration",
     TB + " Mailbox handler is the in-memory reference handler.",
     "deterministic simulation (synctest bubble, seeded link schedule) + history oracle", "DESIGN.md 3 C01")
 
+chk("C05", "fbbsim", "exploration",
+    "A real fbb.Session talks to an independently written B2F peer (ref/b2f, written from the protocol documents, never importing fbb) that validates every line and frame the Session emits and uses every conforming encoding the documents allow; a second oracle checks that both sides end in the outcome the protocol prescribes. Seeded sampling over message sets, roles, peer encodings and link schedules.",
+    TB + " The reference peer and the independent LZHUF decoder are part of the trusted base; they encode the documents, not real RMS software.",
+    "deterministic simulation against an independent reference peer (differential conformance oracle)", "DESIGN.md 3 C05")
+chk("C16", "fbbsim", "exploration",
+    "The reference peer acts as CMS issuing ;PQ challenges; the Session's ;PR and ;FW answers are compared with an independent implementation of the Winlink secure-login algorithm and a wire tap searches everything the Session wrote for the password. Narrow claim: no schedule changes the answer; the simulator hosts a two-party differential check.",
+    TB + " Salt copy pinned by the published test vectors.",
+    "differential check against an independent implementation, hosted in the deterministic simulator", "DESIGN.md 3 C16")
+
 na = [
  ("C07", "pure function of the input bytes (codec interoperability): no schedule, clock, fault or second party for a simulator to control; see DESIGN.md section 4"),
  ("C09", "pure function of the message (serialisation round trip); reader chunking is absorbed by a bufio.Reader; see DESIGN.md section 4"),
